@@ -28,7 +28,8 @@ ASSUMPTIONS = ["redundant finalisation is the injected fault (a second close(), 
                "finalisation are outside the property",
                "the real-file kinds run without crash faults (no deterministic way to tear a real write here)"]
 
-STORAGES = ["sim", "bytesio", "realfile", "realfile+"]
+STORAGES = ["sim", "bytesio", "realfile", "realfile+", "realfile_ab", "realfile_a+b"]
+CROWDS = [1, 5, 127, 128, 129, 300, 1100]
 
 
 def fin_sequences(mmax):
@@ -46,7 +47,8 @@ def judge(scn, log=None):
     items = pipeline.scenario_items(scn)
     wr = pipeline.write_phase(scn, log=log, items=items)
     tag = f"{scn['level']}|blk={int(scn['blocked'])}"
-    fins = [o for o in scn["writer_ops"] if o in ("close", "exit")]
+    allf = [o for o in scn["writer_ops"] if o in ("close", "exit") or o.startswith("crowd:")]
+    fins = [o for o in allf if not o.startswith("crowd:")]
     fails = []
     if wr.error:
         # a write op raising on a well-formed item is C03 / C06's business; nothing to judge here
@@ -76,7 +78,7 @@ def judge(scn, log=None):
             rd2 = pipeline.read_phase(rscn, snap)
             d = next((j for j in range(min(len(snap), len(first))) if snap[j] != first[j]), min(len(snap), len(first)))
             fails.append({"oracle": "C11.later_finalisation_leaves_file_unchanged",
-                          "detail": f"finalisation #{i + 1} ({fins[i]}) of {fins} changed the file (first difference at byte {d}, "
+                          "detail": f"finalisation #{i + 1} ({fins[i]}) of {allf} changed the file (first difference at byte {d}, "
                                     f"{len(first)} -> {len(snap)} bytes); it now reads back as {len(rd2.items)} records then {rd2.end}, {len(items)} were written",
                           "sig": f"C11.later_finalisation_leaves_file_unchanged|{tag}"})
             break
@@ -124,6 +126,7 @@ def build(level, blocked, storage, lst, seq, many=False):
     if many and n:
         writes = [f"write_many:0:{n}"]
     ops = (["enter"] if "exit" in seq else []) + writes + list(seq)
+    # (a "crowd:K" entry between finalisations creates, writes and finalises K other writers)
     scn["writer_ops"] = ops
     return scn
 
@@ -167,6 +170,23 @@ def run_task(task):
                 if len(part["fails"]) < 4:
                     fl["scenario"] = scn
                     part["fails"].append(fl)
+    # other writers finalised in between (a process-wide cache of "already finalised" writers would
+    # evict the victim): crowd sizes around typical cache capacities
+    if task["storage"] in ("sim", "bytesio", "realfile+") and lists:
+        for li, lst in enumerate(lists[:3]):
+            for K in CROWDS:
+                for seq in (["close", f"crowd:{K}", "close"], ["close", f"crowd:{K}", "exit"], ["exit", f"crowd:{K}", "close"]):
+                    scn = build(task["level"], task["blocked"], task["storage"], lst, seq)
+                    fails, wr = judge(scn)
+                    part["evals"] += 1
+                    part["runs"] += 1
+                    part["nontrivial"] += 1
+                    c["fault:refinalise_after_other_writers"] += 1
+                    c["probe:crowd_of_%d_writers_between_finalisations" % K] += 1
+                    for fl in fails:
+                        if len(part["fails"]) < 4:
+                            fl["scenario"] = scn
+                            part["fails"].append(fl)
     if lists:
         part["samples"].append(common_brief(build(task["level"], task["blocked"], task["storage"], lists[-1], ["exit", "close"])))
     return part
@@ -210,7 +230,7 @@ def minimise(scn, oracle):
             return False
 
     key = "records" if scn["level"] == "vbs" else "messages"
-    fins = [o for o in scn["writer_ops"] if o in ("close", "exit")]
+    fins = [o for o in scn["writer_ops"] if o in ("close", "exit") or o.startswith("crowd:")]
 
     def rebuild(items, fins, base):
         c = dict(base)
